@@ -234,7 +234,7 @@ def note_array_to_score(
 
     For time signature and key signature the arguments are processed in the following hierarchy:
 
-    Key sig: (["key_fifths", "key_mode"] fields) overrides (key_sigs list) overrides (estimate_key bool)
+    Key sig: (["ks_fifths", "ks_mode"] fields) overrides (key_sigs list) overrides (estimate_key bool)
     Time sig: (["ts_beats", "ts_beat_type"] fields) overrides (time_sigs list) overrides (estimate_time bool)
 
     If either times in divs or beats are missing, these cases are assumed:
@@ -251,7 +251,7 @@ def note_array_to_score(
         + time_sigs -> time signatures are added, times assumed in quarters (possible error against div/beat)
         + key_sigs -> key signatures are added, times assumed in quarters
         + ["ts_beats", "ts_beat_type"] -> time signatures are added (possible error against div/beat)
-        + ["key_fifths", "key_mode"] -> key signatures are added
+        + ["ks_fifths", "ks_mode"] -> key signatures are added
 
     2) note_array fields ["onset_div", "duration_div", "pitch"]
         -> barebones part, uniform beats in quarters estimated from beats
@@ -260,7 +260,7 @@ def note_array_to_score(
         + time_sigs -> time signatures are added, times assumed in divs (possible error against div/beat)
         + key_sigs -> key signatures are added, times assumed in divs
         + ["ts_beats", "ts_beat_type"] -> time signatures are added (possible error against div/beat)
-        + ["key_fifths", "key_mode"] -> key signatures are added
+        + ["ks_fifths", "ks_mode"] -> key signatures are added
 
     3) note_array fields ["onset_div", "duration_div", "onset_beat", "duration_beat", "pitch"]
         -> barebones part
@@ -269,7 +269,7 @@ def note_array_to_score(
         + time_sigs -> time signatures are added, times assumed in divs (possible error against div/beat)
         + key_sigs -> key signatures are added, times assumed in divs
         + ["ts_beats", "ts_beat_type"] -> time signatures are added (possible error against div/beat)
-        + ["key_fifths", "key_mode"] -> key signatures are added
+        + ["ks_fifths", "ks_mode"] -> key signatures are added
 
     Parameters
     ----------
@@ -280,15 +280,15 @@ def note_array_to_score(
         - pitch
         - ts_beats (optional)
         - ts_beat_type (optional)
-        - key_mode(optional)
-        - key_fifths(optional)
+        - ks_mode (optional)
+        - ks_fifths (optional)
         - id (optional)
     divs : int (optional)
         Divs/ticks per quarter note.
         If not given, it is estimated assuming a beats in quarters.
     key_sigs: list (optional)
         A list of key signatures. Each key signature is a tuple of the form (onset, key_name, offset).
-        Overridden by note_array fields "key_mode" and "key_fifths".
+        Overridden by note_array fields "ks_mode" and "ks_fifths".
         Overrides estimate_key.
     time_sigs: list (optional)
         A list of time signatures. Each time signature is a tuple of the form (onset, ts_num, ts_den, offset).
@@ -337,7 +337,7 @@ def note_array_to_score(
     dtypes = note_array.dtype.names
 
     ts_case = ["ts_beats", "ts_beat_type"]
-    ks_case = ["key_fifths", "key_mode"]
+    ks_case = ["ks_fifths", "ks_mode"]
 
     case1 = ["onset_beat", "duration_beat", "pitch"]
     case1_ex = ["onset_div", "duration_div"]
@@ -512,11 +512,9 @@ def note_array_to_score(
             ]
         ]
         for n in note_array:
-            global_key_sigs.append(
-                [n["onset_div"], fifths_mode_to_key_name(n["ks_fifths"], n["ks_mode"])]
-            )
-        else:
-            global_key_sigs = key_sigs
+            key_name = fifths_mode_to_key_name(n["ks_fifths"], n["ks_mode"])
+            if key_name != global_key_sigs[-1][1]:
+                global_key_sigs.append([n["onset_div"], key_name])
     elif key_sigs is not None:
         global_key_sigs = key_sigs
     elif estimate_key:
